@@ -12,7 +12,7 @@ transparency stream) compares the worker-to-worker connections with the path clo
 Ops (JSON lists): ['mkworker', stateful, szin, szout] ['mkfuture', szin, szout] ['fork', n]
   ['sub', s, j, p, i]  = s[j].subscribe(p[i])      ['train', n, tp, ti, lp, li] = n.train(tp[ti], lp[li])
   ['segment', h, t|None] = flow.Segment(h, t)      ['validate', h, t|None] = Segment(h, t).accept(Validator())
-  oracle-only (not modelled): ['copy', h, t|None] = Segment(h, t).copy()   ['extend', h, t, h2] = Segment(h,t).extend(h2)
+  oracle-only (not modelled): ['copy', h, t|None] = Segment(h, t).copy()
 """
 from __future__ import annotations
 
@@ -270,15 +270,18 @@ def reachable(dump, head) -> set:
 def judge(op, res, cls, before, after) -> list[tuple[str, str]]:
     """All oracle clauses for one call. `before`/`after` are dumps; returns [(signature, what)]."""
     out = []
-    route = 'future' if _touches_future(op, before) else 'direct'
+    route = 'copy' if op[0] == 'copy' else 'future' if _touches_future(op, before) else 'direct'
+    if res[0] == 'err' and op[0] == 'copy':
+        return out  # a failing copy leaves forks behind in the worker groups; only successful copies are judged
     if res[0] == 'err':
-        if cls not in ('TopologyError', 'ValueError'):
+        if cls not in ('TopologyError', 'ValueError', 'AssertionError'):  # AssertionError: port index out of shape
             out.append((f'error-class-{cls}', f'{op} raised {cls} instead of the topology error'))
         if before != after:
             stage = ''
             if op[0] == 'train' and route == 'direct':
                 stage = '-label-stage'
-            out.append((f'not-atomic-{op[0]}-{route}{stage}', f'{op} raised {res[1]} but changed the graph'))
+            sig = 'not-atomic-future-route' if route == 'future' else f'not-atomic-{op[0]}-direct{stage}'
+            out.append((sig, f'{op} raised {res[1]} but changed the graph'))
     for sig, what in invariants(after):
         if not any(s == sig for s, _ in invariants(before)):
             out.append((f'{sig}-{route}', f'after {op} ({res}): {what}'))
@@ -366,10 +369,7 @@ def gen_op(rng: random.Random, real: Real, dump, last_failed, extra_ops: bool, a
         return False
 
     if extra_ops and r < 0.12:
-        h = rng.randrange(n)
-        if rng.random() < 0.5:
-            return ['copy', h, None if rng.random() < 0.7 else rng.randrange(n)]
-        return ['extend', h, None if rng.random() < 0.7 else rng.randrange(n), rng.randrange(n)]
+        return ['copy', rng.randrange(n), None if rng.random() < 0.7 else rng.randrange(n)]
     if r < 0.14:
         h = rng.randrange(n)
         t = None if rng.random() < 0.6 else rng.randrange(n)
@@ -385,8 +385,10 @@ def gen_op(rng: random.Random, real: Real, dump, last_failed, extra_ops: bool, a
                 tp, lp = rng.choice(pubs), rng.choice(pubs)
                 return ['train', w, tp, out_idx(tp), lp, out_idx(lp)]
         w = rng.choice(workers)
-        tp, lp = rng.randrange(n), rng.randrange(n)
-        return ['train', w, tp, out_idx(tp), lp, out_idx(lp)]
+        pubs = [p for p in range(n) if nodes[p].szout]
+        if pubs:
+            tp, lp = rng.choice(pubs), rng.choice(pubs)
+            return ['train', w, tp, out_idx(tp), lp, out_idx(lp)]
     # subscribe
     if legal:
         for _ in range(8):
@@ -431,8 +433,9 @@ def run_sequence(ops_or_seed, length: int = 0, extra_ops: bool = False, allow_re
             after = real.dump()
             ops.append(op)
             records.append([res] + after)
-            for sig, what in judge(op, res, cls, before, after):
-                verdicts.append((i, sig, what))
+            if not verdicts:  # the first failing call is the witness; what follows is a consequence of it
+                for sig, what in judge(op, res, cls, before, after):
+                    verdicts.append((i, sig, what))
             last_failed = op if res[0] == 'err' else None
             before = after
         return ops, records, verdicts
@@ -474,6 +477,8 @@ CORPUS = [
     [['mkworker', False, 1, 1], ['mkfuture', 1, 1], ['sub', 1, 0, 0, 0], ['sub', 0, 0, 1, 0]],
     [['mkworker', True, 1, 1], ['mkworker', False, 1, 1], ['mkfuture', 1, 1], ['mkworker', False, 1, 1],
      ['sub', 2, 0, 0, 0], ['train', 0, 1, 0, 1, 0], ['sub', 3, 0, 2, 0]],
+    # a placeholder registered on itself: RecursionError
+    [['mkworker', False, 1, 1], ['mkfuture', 1, 1], ['sub', 0, 0, 1, 0], ['sub', 1, 0, 1, 0]],
     # chains of placeholders, both orders
     [['mkworker', False, 1, 1], ['mkfuture', 1, 1], ['mkfuture', 1, 1], ['mkworker', False, 1, 1],
      ['sub', 3, 0, 2, 0], ['sub', 2, 0, 1, 0], ['sub', 1, 0, 0, 0], ['segment', 0, None], ['validate', 1, None]],
@@ -489,8 +494,8 @@ CORPUS = [
     [['mkworker', True, 1, 1], ['fork', 0], ['mkworker', False, 1, 1], ['train', 0, 2, 0, 2, 0],
      ['train', 1, 2, 0, 2, 0], ['sub', 2, 0, 0, 0], ['sub', 0, 0, 2, 0], ['sub', 1, 0, 2, 0], ['train', 2, 1, 0, 1, 0],
      ['segment', 2, None], ['validate', 2, 1]],
-    [['mkworker', True, 0, 0], ['mkworker', True, 1, 1], ['mkworker', False, 1, 1], ['sub', 1, 0, 2, 0],
-     ['train', 1, 2, 0, 2, 0], ['sub', 1, 0, 2, 0], ['sub', 2, 0, 1, 0], ['train', 1, 2, 0, 2, 0]],
+    [['mkworker', True, 0, 0], ['mkworker', True, 1, 1], ['mkworker', False, 1, 1], ['sub', 0, 0, 1, 0],
+     ['train', 0, 1, 0, 1, 0], ['sub', 0, 0, 1, 0], ['sub', 1, 0, 0, 0], ['train', 0, 1, 0, 1, 0]],
 ]
 
 
@@ -592,15 +597,17 @@ class C11(fw.Check):
         self._compare(self._pool_map('seed', items), 'seq', 'random')
 
     def _oracle_only(self):
-        """copy / extend (not modelled) and registration cycles among futures: invariants + atomicity only."""
+        """Segment.copy (not modelled) and registration cycles among futures: oracle only."""
         nseq = self.n(300, 3000)
         items = [(self.rng.getrandbits(48), self.rng.choice([8, 12, 16]), True, True) for _ in range(nseq)]
         for ops, _, verdicts in self._pool_map('seed', items):
-            self._account(ops, verdicts, 'oracle-only(copy/extend/reg-cycles)')
+            self._account(ops, verdicts, 'oracle-only(copy/reg-cycles)')
 
     def _exhaustive(self):
         universe = [['mkworker', True, 1, 1], ['mkworker', False, 1, 1], ['mkfuture', 1, 1], ['fork', 0]]
-        alphabet = [['sub', s, 0, p, 0] for s in range(4) for p in range(4)]
+        # (the future registering itself, a registration cycle, is a corpus case: tracing calls made after it end in
+        # Python's RecursionError inside Future.subscribed, which the model does not follow)
+        alphabet = [['sub', s, 0, p, 0] for s in range(4) for p in range(4) if (s, p) != (2, 2)]
         alphabet += [['train', 0, 1, 0, 1, 0], ['train', 0, 2, 0, 1, 0], ['train', 3, 1, 0, 2, 0], ['train', 0, 1, 0, 0, 0]]
         probes = [['segment', 1, None], ['validate', 2, None]]
         depth = self.n(2, 4)
